@@ -249,8 +249,8 @@ PROPS["C05"] = {
     "module": "MsiProofs.Props.C05b",
     "gen": ["limits", "column"],
     "profiles": ["dev"],
-    "theorems": ["MsiProofs.C05.key_order_strict_total", "MsiProofs.C05.loadMap_sorted", "MsiProofs.C05.addRows_sorted", "MsiProofs.C05.insert_writes_sorted_unique", "MsiProofs.C05.insert_refused_iff_present", "MsiProofs.C05.sortByKey_perm", "MsiProofs.C05.insert_sorted", "MsiProofs.C05.delete_sorted", "MsiProofs.C05.history_sorted", "MsiProofs.C05.keys_distinct", "MsiProofs.C05.readRows_rowOk"],
-    "level_text": 'HISTORIES: in every table the rows the state reads are in strictly ascending key order (keys = values of the key columns under the current pool), hence pairwise distinct; every insert or delete on any table, accepted or refused, keeps this for ALL tables of the package (history_sorted, with the package invariant of C08); rows read always fit the type and width of their columns. Update::exec over histories and cell validity beyond type/width (ranges, categories, enumerations): oracle. Lean theorems: the derived ordering of values and key tuples is a strict total order; the key-sorted map used by Insert::exec stays strictly sorted through loading and adding, so the rows written back have pairwise distinct, ascending keys for every table, batch and arrival order; an insertion is refused exactly for a present key; the update path re-sorts by a permutation. Tie: the invariant (unique ascending keys, valid cells) is evaluated on the real rows after every step and reopen.',
+    "theorems": ["MsiProofs.C05.key_order_strict_total", "MsiProofs.C05.loadMap_sorted", "MsiProofs.C05.addRows_sorted", "MsiProofs.C05.insert_writes_sorted_unique", "MsiProofs.C05.insert_refused_iff_present", "MsiProofs.C05.sortByKey_perm", "MsiProofs.C05.insert_sorted", "MsiProofs.C05.delete_sorted", "MsiProofs.C05.history_sorted", "MsiProofs.C05.keys_distinct", "MsiProofs.C05.readRows_rowOk", "MsiProofs.C05.sortByKey_sorted", "MsiProofs.C05.strict_of_sorted_nodup", "MsiProofs.C05.update_sorted", "MsiProofs.C05.dml_history_sorted"],
+    "level_text": 'HISTORIES: in every table the rows the state reads are in strictly ascending key order (keys = values of the key columns under the current pool), hence pairwise distinct; every insert, UPDATE (re-sorted by an insertion sort proved to sort, with the duplicate check giving strict ascent; stored order and keys kept when no key column is assigned) or delete on any table, accepted or refused, keeps this for ALL tables of the package (dml_history_sorted, with the package invariant of C08); rows read always fit the type and width of their columns. Cell validity beyond type/width (ranges, categories, enumerations): oracle. Lean theorems: the derived ordering of values and key tuples is a strict total order; the key-sorted map used by Insert::exec stays strictly sorted through loading and adding, so the rows written back have pairwise distinct, ascending keys for every table, batch and arrival order; an insertion is refused exactly for a present key; the update path re-sorts by a permutation. Tie: the invariant (unique ascending keys, valid cells) is evaluated on the real rows after every step and reopen.',
     "level_note": "Trusted: Lean kernel; the hand-written package model (MsiModel/Pkg.lean, PkgApi.lean, Pool, Table, PropSet, Summary), tied to the code by byte-exact correspondence: the same request histories run on the real crate and on the model's definitions, compared on every reply including full snapshots and the raw bytes of every saved stream; cfb is modelled as a finite map from names (compared by UTF-16 length and upper-cased text) to byte strings; the 24 table-backed code pages are modelled on ASCII text only (non-ASCII text is exercised under UTF-8; all pages are exercised by the oracle on the real code).",
     "technique": 'Lean 4 proof (strict total order + sortedness invariant by induction) + invariant oracle on real rows',
     "rule": 'seeded random sessions: package type, database code page, 1-3 tables with random schemas (types, widths, flags, ranges, categories, enumerations, composite/nullable keys), inserts (valid with controlled invalid mutations), updates (incl. key columns), deletes, selects, stream writes/removes (0..9000 bytes), summary setters/clearers, create/drop table, rejected calls, close/reopen in all three modes at random positions, snapshot after every step, raw bytes after flush. non-trivial = distinct successful mutating requests + decoded files',
